@@ -1,0 +1,146 @@
+//go:build verif
+
+// Contracts for registration_db.go, second pass (C14, C15), checked by nsqvc. Comment-only file.
+// Clock model: lastNow (std.spec) = result of the most recent time.Now(); mClock (.trusted/mlookupd.spec) =
+// clock reading of the most recent time.Since.
+
+package nsqlookupd
+
+// A tombstone is in force while less than `lifetime` has passed since it was set.
+//@ func (p *Producer) IsTombstoned(lifetime time.Duration) bool
+//@   props C14
+//@   requires p != nil
+//@   ensures[lapses-after-lifetime] result == (p.tombstoned && mClock - unixNano(p.tombstonedAt) < lifetime)
+//@   ensures[clock-read-iff-tombstoned] (!p.tombstoned ==> mClock == old(mClock)) && (p.tombstoned ==> mClock >= unixNano(lastNow))
+//@   ensures[clock-monotone] mClock >= old(mClock)
+//@   modifies mClock
+//@   nochan
+
+// mLive0(p, t, inact, life): at clock reading t the producer has pinged within `inact` and carries no tombstone younger than `life`.
+//@ pred mPinged(p *Producer, t int, inact int) := t - p.peerInfo.lastUpdate <= inact
+//@ pred mTombAt(p *Producer, t int, life int) := p.tombstoned && t - unixNano(p.tombstonedAt) < life
+//@ pred mValidProds(pp Producers) := forall i int :: {pp[i]} 0 <= i && i < len(pp) ==> pp[i] != nil && pp[i].peerInfo != nil
+
+// FilterByActive reads the clock once (time.Now, T0 = lastNow) and then once per tombstoned producer (time.Since, all
+// readings within [T0, mClock]). A producer is kept iff T0 - lastUpdate <= inactivityTimeout and its tombstone (if any)
+// was not in force at the reading taken for it. Stated with the two end points of the reading interval:
+//   kept    ==> pinged at T0 and not tombstoned at the final reading mClock;
+//   dropped ==> not pinged at T0, or tombstoned at T0.
+//@ func (pp Producers) FilterByActive(inactivityTimeout time.Duration, tombstoneLifetime time.Duration) Producers
+//@   props C14
+//@   requires[producers-valid] mValidProds(pp)
+//@   ensures[kept-are-live] forall j int :: {result[j]} 0 <= j && j < len(result) ==> result[j] != nil && result[j].peerInfo != nil &&
+//@        mPinged(result[j], unixNano(lastNow), inactivityTimeout) && !mTombAt(result[j], mClock, tombstoneLifetime)
+//@   ensures[kept-from-input] forall j int :: {result[j]} 0 <= j && j < len(result) ==> (exists i int :: {pp[i]} 0 <= i && i < len(pp) && pp[i] == result[j])
+//@   ensures[live-are-kept] forall i int :: {pp[i]} 0 <= i && i < len(pp) && mPinged(pp[i], unixNano(lastNow), inactivityTimeout) && !mTombAt(pp[i], unixNano(lastNow), tombstoneLifetime) ==>
+//@        (exists j int :: {result[j]} 0 <= j && j < len(result) && result[j] == pp[i])
+//@   ensures[no-more-than-input] len(result) <= len(pp)
+//@   ensures[fresh] fresh(result)
+//@   modifies lastNow, mClock
+//@   onreturn mKept := result
+//@   onreturn mKeptFrom := pp
+//@   nochan
+//@   loop 0
+//@     invariant fresh(results) && lastNow == now && len(results) <= rangeindex + 1 && rangeindex < len(pp)
+//@     invariant[sound] forall j int :: {results[j]} 0 <= j && j < len(results) ==> results[j] != nil && results[j].peerInfo != nil &&
+//@        mPinged(results[j], unixNano(now), inactivityTimeout) && !mTombAt(results[j], mClock, tombstoneLifetime)
+//@     invariant[from-input] forall j int :: {results[j]} 0 <= j && j < len(results) ==> (exists i int :: {pp[i]} 0 <= i && i <= rangeindex && pp[i] == results[j])
+//@     invariant[complete] forall i int :: {pp[i]} 0 <= i && i <= rangeindex && mPinged(pp[i], unixNano(now), inactivityTimeout) && !mTombAt(pp[i], unixNano(now), tombstoneLifetime) ==>
+//@        (exists j int :: {results[j]} 0 <= j && j < len(results) && results[j] == pp[i])
+
+//@ func (rr Registrations) SubKeys() []string
+//@   props C14 C15
+//@   ensures[aligned] len(result) == len(rr) && forall i int :: {result[i]} 0 <= i && i < len(rr) ==> result[i] == rr[i].SubKey
+//@   ensures[fresh] fresh(result)
+//@   modifies
+//@   nochan
+//@   loop 0
+//@     invariant fresh(subkeys) && len(subkeys) == len(rr)
+//@     invariant forall k int :: {subkeys[k]} 0 <= k && k <= rangeindex ==> subkeys[k] == rr[k].SubKey
+
+// Filter keeps exactly the matching registrations.
+//@ func (rr Registrations) Filter(category string, key string, subkey string) Registrations
+//@   props C14 C15
+//@   ensures[only-matching] forall j int :: {result[j]} 0 <= j && j < len(result) ==> matches(result[j], category, key, subkey) &&
+//@        (exists i int :: {rr[i]} 0 <= i && i < len(rr) && rr[i] == result[j])
+//@   ensures[all-matching] forall i int :: {rr[i]} 0 <= i && i < len(rr) && matches(rr[i], category, key, subkey) ==>
+//@        (exists j int :: {result[j]} 0 <= j && j < len(result) && result[j] == rr[i])
+//@   ensures[no-more-than-input] len(result) <= len(rr)
+//@   ensures[fresh] fresh(result)
+//@   modifies
+//@   nochan
+//@   loop 0
+//@     invariant fresh(output) && len(output) <= rangeindex + 1 && rangeindex < len(rr)
+//@     invariant[sound] forall j int :: {output[j]} 0 <= j && j < len(output) ==> matches(output[j], category, key, subkey) &&
+//@        (exists i int :: {rr[i]} 0 <= i && i < len(rr) && rr[i] == output[j])
+//@     invariant[complete] forall i int :: {rr[i]} 0 <= i && i <= rangeindex && matches(rr[i], category, key, subkey) ==>
+//@        (exists j int :: {output[j]} 0 <= j && j < len(output) && output[j] == rr[i])
+
+// One PeerInfo per producer, same order.
+//@ func (pp Producers) PeerInfo() []*PeerInfo
+//@   props C14 C15
+//@   requires[producers-valid] mValidProds(pp)
+//@   ensures[aligned] len(result) == len(pp) && forall i int :: {result[i]} 0 <= i && i < len(pp) ==> result[i] == pp[i].peerInfo
+//@   ensures[fresh] fresh(result)
+//@   modifies
+//@   nochan
+//@   loop 0
+//@     invariant fresh(results) && len(results) == rangeindex + 1 && rangeindex < len(pp)
+//@     invariant forall k int :: {results[k]} 0 <= k && k <= rangeindex ==> results[k] == pp[k].peerInfo
+
+// Every element of the slice is a value of the map (which values, and that none is missed, needs the visited set: ENGINE GAPS).
+//@ func ProducerMap2Slice(pm ProducerMap) Producers
+//@   props C14 C15
+//@   ensures[from-map] forall j int :: {result[j]} 0 <= j && j < len(result) ==> (exists id string :: {pm[id]} has(pm, id) && pm[id] == result[j])
+//@   ensures[fresh] len(result) == 0 || fresh(result)
+//@   modifies
+//@   nochan
+//@   loop 0
+//@     invariant (len(producers) == 0 && cap(producers) == 0) || fresh(producers)
+//@     invariant forall j int :: {producers[j]} 0 <= j && j < len(producers) ==> (exists id string :: {pm[id]} has(pm, id) && pm[id] == producers[j])
+
+// Ghost observation for the HTTP handlers: the most recent FindProducers answer and its query; the most recent FilterByActive
+// answer and its input.
+//@ ghost mFound Producers
+//@ ghost mFoundCat string
+//@ ghost mFoundKey string
+//@ ghost mFoundSub string
+//@ ghost mKept Producers
+//@ ghost mKeptFrom Producers
+
+// mProdOf(r, k, p): p is the producer filed under registration k for its own peer id.
+//@ pred mProdOf(r *RegistrationDB, k Registration, p *Producer) := hasProd(r, k, p.peerInfo.id) && r.registrationMap[k][p.peerInfo.id] == p
+
+// FindProducers: every producer returned is registered (at release of the read lock) under a key matching the query;
+// with wildcards no peer id occurs twice. (That no registered producer is missed needs the visited set: ENGINE GAPS.)
+//@ func (r *RegistrationDB) FindProducers(category string, key string, subkey string) Producers
+//@   props C14 C15
+//@   requires r != nil
+//@   ghostparam gk Registration
+//@   ensures[valid] mValidProds(result)
+//@   ensures[sound] forall j int :: {result[j]} 0 <= j && j < len(result) ==>
+//@        atunlock(exists k Registration :: {r.registrationMap[k]} matches(k, category, key, subkey) && mProdOf(r, k, now(result[j])))
+//@   ensures[exact-key] key != "*" && subkey != "*" && gk.Category == category && gk.Key == key && gk.SubKey == subkey ==>
+//@        forall j int :: {result[j]} 0 <= j && j < len(result) ==> atunlock(mProdOf(r, gk, now(result[j])))
+//@   ensures[absent-key-empty] key != "*" && subkey != "*" && gk.Category == category && gk.Key == key && gk.SubKey == subkey && !atunlock(hasKey(r, gk)) ==> len(result) == 0
+//@   ensures[one-entry-per-peer] (key == "*" || subkey == "*") ==> forall j1 int, j2 int :: {result[j1], result[j2]} 0 <= j1 && j1 < j2 && j2 < len(result) ==> result[j1].peerInfo.id != result[j2].peerInfo.id
+//@   ensures[fresh] len(result) == 0 || fresh(result)
+//@   modifies r.registrationMap, mapstore(map[Registration]ProducerMap), mapstore(ProducerMap)
+//@   onreturn mFound := result
+//@   onreturn mFoundCat := category
+//@   onreturn mFoundKey := key
+//@   onreturn mFoundSub := subkey
+//@   nochan
+//@   loop 0
+//@     invariant fresh(results) && ((len(retProducers) == 0 && cap(retProducers) == 0) || fresh(retProducers))
+//@     invariant[valid] forall j int :: {retProducers[j]} 0 <= j && j < len(retProducers) ==> retProducers[j] != nil && retProducers[j].peerInfo != nil && has(results, retProducers[j].peerInfo.id)
+//@     invariant[sound] forall j int :: {retProducers[j]} 0 <= j && j < len(retProducers) ==>
+//@        (exists k2 Registration :: {r.registrationMap[k2]} matches(k2, category, key, subkey) && mProdOf(r, k2, retProducers[j]))
+//@     invariant[distinct] forall j1 int, j2 int :: {retProducers[j1], retProducers[j2]} 0 <= j1 && j1 < j2 && j2 < len(retProducers) ==> retProducers[j1].peerInfo.id != retProducers[j2].peerInfo.id
+//@   loop 1
+//@     invariant fresh(results) && ((len(retProducers) == 0 && cap(retProducers) == 0) || fresh(retProducers))
+//@     invariant[cur] hasKey(r, k) && matches(k, category, key, subkey) && producers == r.registrationMap[k]
+//@     invariant[valid] forall j int :: {retProducers[j]} 0 <= j && j < len(retProducers) ==> retProducers[j] != nil && retProducers[j].peerInfo != nil && has(results, retProducers[j].peerInfo.id)
+//@     invariant[sound] forall j int :: {retProducers[j]} 0 <= j && j < len(retProducers) ==>
+//@        (exists k2 Registration :: {r.registrationMap[k2]} matches(k2, category, key, subkey) && mProdOf(r, k2, retProducers[j]))
+//@     invariant[distinct] forall j1 int, j2 int :: {retProducers[j1], retProducers[j2]} 0 <= j1 && j1 < j2 && j2 < len(retProducers) ==> retProducers[j1].peerInfo.id != retProducers[j2].peerInfo.id
